@@ -247,6 +247,8 @@ type ics20 struct {
 	porttypes.IBCModule
 	l         *Ledger
 	faults    bool
+	panics    bool // the application may abort (out of gas while it handles the packet)
+	panicked  bool
 	failed    int
 	blocked   []sdk.AccAddress
 	calls     int
@@ -325,6 +327,10 @@ func (a *ics20) recv(ctx sdk.Context, p channeltypes.Packet) error {
 func (a *ics20) OnRecvPacket(ctx sdk.Context, p channeltypes.Packet, relayer sdk.AccAddress) ibcexported.Acknowledgement {
 	a.calls++
 	a.sawPacket, a.sawRelayr = p, relayer
+	if a.panics && verif.Bool("application-aborts") {
+		a.panicked = true
+		panic(verif.Injected{What: "the wrapped application ran out of gas"})
+	}
 	var ack ibcexported.Acknowledgement
 	if err := a.recv(ctx, p); err != nil {
 		ack = channeltypes.NewErrorAcknowledgement(err)
